@@ -87,6 +87,7 @@ def run(res, tier):
             res.violation("mir:record-asymmetry:" + ty, "%s: the fields read back (%s) differ in order or type from the fields written (%s)" % (ty, rs, ws), fn)
     n += check_counted_loops(res, E)
     n += check_time_codec(res, E)
+    n += check_leaf_shapes(res, E)
     res.distinct += n
     mprop.finish_engine(res, E)
 
@@ -198,6 +199,121 @@ fn c28_native_time_roundtrip() {
     res.extra.setdefault("native_replays", []).append({"test": "c28_native_time_roundtrip", "failed": failed, "observed": obs[:2] or [out[-300:]]})
     _NATIVE["time"] = True if failed else (False if passed else None)
     return _NATIVE["time"]
+
+def native_blob_roundtrip(res):
+    """Real round trips of the length-prefixed encodings (URIs, Bytes and their Option forms) at boundary lengths."""
+    if "blob" in _NATIVE:
+        return _NATIVE["blob"]
+    import os
+    import nativetest
+    from vcommon import VERIF
+    src = """// generated by props/c28.py: native round trip of the length-prefixed encodings
+use super::*;
+use std::str::FromStr;
+fn rt<T: for<'a> Parse<&'a [u8]> + Compose<Vec<u8>> + PartialEq + std::fmt::Debug>(what: &str, v: &T, bad: &mut Vec<String>) {
+    let mut buf = Vec::new();
+    v.compose(&mut buf).unwrap();
+    let mut rd = &buf[..];
+    let back = T::parse(&mut rd);
+    if !(matches!(&back, Ok(b) if b == v) && rd.is_empty()) {
+        bad.push(format!("{} ({} bytes encoded, {} left unread)", what, buf.len(), rd.len()));
+    }
+}
+#[test]
+fn c28_native_blob_roundtrip() {
+    let mut bad = Vec::new();
+    for n in [0usize, 1, 2, 127, 128, 255, 256, 257, 65535, 65536, 70000] {
+        let b = Bytes::from((0..n).map(|i| (i * 7 + 3) as u8).collect::<Vec<u8>>());
+        rt(&format!("Bytes of {} octets", n), &b, &mut bad);
+        rt(&format!("Some(Bytes) of {} octets", n), &Some(b), &mut bad);
+        let path: String = std::iter::repeat('a').take(n).collect();
+        let r = uri::Rsync::from_str(&format!("rsync://example.net/module/{}", path)).unwrap();
+        rt(&format!("rsync URI with a path of {} octets", n), &r, &mut bad);
+        let h = uri::Https::from_str(&format!("https://example.net/{}", path)).unwrap();
+        rt(&format!("https URI with a path of {} octets", n), &h, &mut bad);
+        rt(&format!("Some(https URI) with a path of {} octets", n), &Some(h), &mut bad);
+    }
+    rt("None::<Bytes>", &Option::<Bytes>::None, &mut bad);
+    rt("None::<uri::Https>", &Option::<uri::Https>::None, &mut bad);
+    println!("C28-NATIVE-BLOB values that do not read back as written: {:?}", bad);
+    assert!(bad.is_empty(), "values that do not round-trip: {:?}", bad);
+}
+"""
+    with open(os.path.join(VERIF, "native", "c28_generated.rs"), "w") as f:
+        f.write(src)
+    failed, passed, out = nativetest.run_native_test("native_c28", "c28_native_blob_roundtrip")
+    obs = re.findall(r"C28-NATIVE-BLOB (.*)", out)
+    res.extra.setdefault("native_replays", []).append({"test": "c28_native_blob_roundtrip", "failed": failed, "observed": obs[:2] or [out[-300:]]})
+    _NATIVE["blob"] = (True if failed else (False if passed else None), (obs[:1] or [out[-400:]])[0])
+    return _NATIVE["blob"]
+
+
+def check_leaf_shapes(res, E):
+    """Each leaf encoding in utils::binio: the set of sequences of integer encodings and raw byte runs that
+    compose() writes on its successful paths equals the set parse() reads (e.g. {[u32, raw]} for a URI,
+    {[u64], [u64, raw]} for Option<Bytes>); nested leaf encodings are expanded."""
+    norm = lambda t: re.sub(r"std::option::|rpki::|bytes::|repository::x509::|chrono::|uuid::|rrdp::|uri::", "", t).strip()
+    shapes = {}
+    for name, bodies in E.prog.bodies.items():
+        m = re.search(r"binio::<impl at src/utils/binio\.rs:[^>]*>::(compose|parse)$", name)
+        if not m:
+            continue
+        kind = m.group(1)
+        for b in bodies:
+            arg = b.args[0][1] if b.args else ""
+            ty = arg.lstrip("&").strip() if kind == "compose" else (re.match(r"Result<(.*), binio::ParseError>$", (b.ret or "").replace("std::result::", "")) or [None, ""])[1]
+            ty = norm(ty)
+            if not ty or "HashMap" in ty:
+                continue
+            seqs = set()
+            for p in E.explore(b.parse(), max_visits=2, nomut=[r"."]):
+                if p.kind != "return":
+                    continue
+                d = p.ret.get(("disc",))
+                if d is not None and not E.feasible(p.cond, d == 0):
+                    continue
+                seq = []
+                for e in p.events:
+                    if e.kind != "call":
+                        continue
+                    mm = re.match(r"^<(.*) as (?:\w+::)*(Compose|Parse)<.*>>::(compose|parse)$", e.callee or "")
+                    if mm:
+                        seq.append(norm(mm.group(1).lstrip("&")))
+                    elif re.search(r"(write_all|read_exact|read_vec)$", e.name):
+                        seq.append("raw")
+                seqs.add(tuple(seq))
+            shapes.setdefault(ty, {})[kind] = seqs
+
+    def expand(kind, seqs, depth=0):
+        out = set()
+        for seq in seqs:
+            acc = {()}
+            for el in seq:
+                sub = shapes.get(el, {}).get(kind) if depth < 3 and el not in ("raw",) and not re.match(r"^[ui]\d+$", el) else None
+                alts = expand(kind, sub, depth + 1) if sub else {(el,)}
+                acc = {x + y for x in acc for y in alts}
+            out |= acc
+        return out
+    n = 0
+    for ty, sh in sorted(shapes.items()):
+        if not sh.get("compose") or not sh.get("parse"):
+            continue
+        n += 1
+        w, r = expand("compose", sh["compose"]), expand("parse", sh["parse"])
+        show = lambda x: sorted(list(t) for t in x)
+        res.extra.setdefault("leaf_shapes", {})[ty] = {"written": show(w), "read": show(r)}
+        if w != r:
+            verdict, obs = native_blob_roundtrip(res) if re.search(r"Bytes|Https|Rsync", ty) else (None, "")
+            fn = mprop.write_cex(res, "leaf_shape_%s" % re.sub(r"\W+", "_", ty), mir.Path(mir.State(), {}, "static"), E,
+                                 "%s is written as %s but read as %s\nnative round trip: %s" % (ty, show(w), show(r), obs))
+            if verdict is False:
+                res.inconclusive.append("leaf encoding %s: written %s, read %s, but the native round trip passed" % (ty, show(w), show(r)))
+            else:
+                res.violation("mir:leaf-asymmetry:" + ty, "%s: written as %s but read back as %s%s" % (ty, show(w), show(r), "; native round trip fails: " + obs if verdict else ""), fn)
+    if n < 8:
+        res.inconclusive.append("vacuity: only %d leaf encodings paired" % n)
+    res.functions.append("utils::binio: %d leaf Compose/Parse pairs (MIR): nested encodings and raw runs, written vs read" % n)
+    return n
 
 
 def check_counted_loops(res, E):
